@@ -196,10 +196,12 @@ case_uniq = st.fixed_dictionaries({"doc": docs.document(dups=False),
 
 
 def small_cases():
-    """Bounded-exhaustive: one paragraph A,a,B (duplicate in other case) or A,B,C x endings x every
-    single ordering operation with every plain/indexed key."""
+    """Bounded-exhaustive: one paragraph A,a,B (duplicate in other case), A,B,C, or a name occurring
+    three / four times x endings x every single ordering operation with every plain/indexed key."""
     shapes = [["Alpha", "alpha", "Beta"], ["Alpha", "Beta", "alpha"], ["Beta", "Alpha", "ALPHA"],
-              ["Alpha", "Beta", "Gamma"], ["Alpha", "alpha"]]
+              ["Alpha", "Beta", "Gamma"], ["Alpha", "alpha"],
+              # three and four occurrences: "the last two" and "the first two" are not all there is
+              ["Alpha", "alpha", "Beta", "ALPHA"], ["Alpha", "alpha", "ALPHA", "alphA", "Beta"]]
     tails = [("", True), ("", False), ("# trailing\n", False), ("\n# trailing\n", True)]
     spec = {"fields": [["Package", "n"]], "how": "assign"}
     for names in shapes:
@@ -211,7 +213,8 @@ def small_cases():
                 d = {"lead": "", "paras": paras, "seps": ["\n# free\n\n"] * (len(paras) - 1),
                      "tail": tail, "final_nl": fin}
                 pi = len(paras) - 1 if not two else 0
-                keys = [[ni, occ, 0] for ni in range(3) for occ in (None, 0, 1)]
+                nocc = max(sum(1 for m in names if m.lower() == n.lower()) for n in names)
+                keys = [[ni, occ, 0] for ni in range(3) for occ in (None, 0, 1, 2, 3)[:nocc + 1]]
                 for k in keys:
                     yield {"doc": d, "ops": [["refmissing", pi, "before", k], ["last", pi, k]]}
                     yield {"doc": d, "ops": [["refmissing", pi, "after", k], ["sort", pi, "default"]]}
